@@ -16,7 +16,7 @@ func (h *hist) opIndex(o op, written map[string]wr, mustAbsent map[string]string
 	preI, cachedI := h.prev[ik]
 	var got row
 	var err error
-	h.call(func() { got, err = h.st.readIndex(ik, o.Name, h.keyer) })
+	h.call(o, func() { got, err = h.st.readIndex(ik, o.Name, h.keyer) })
 
 	var want *row
 	freshPK := ""
@@ -41,6 +41,12 @@ func (h *hist) opIndex(o op, written map[string]wr, mustAbsent map[string]string
 	}
 	qI := h.db.q[ik]
 	switch {
+	case h.preCancelled(o, err):
+		for _, k := range []string{ik, pk, freshPK} {
+			if _, had := h.prev[k]; k != "" && !had {
+				mustAbsent[k] = "C06/ctx/cached-from-cancelled-call/index"
+			}
+		}
 	case ist.node.getFails():
 		kind := ist.node.outage()
 		h.outageReads++
@@ -198,6 +204,8 @@ func (h *hist) opIndex(o op, written map[string]wr, mustAbsent map[string]string
 // no earlier than the retries); once it ran, the retries have been dispatched.
 // After that the state is sampled twice, 15 s apart: no DEL attempt at all for a
 // key and nothing changed between the samples => the retry does not exist.
+var noRetryReported bool
+
 func (h *hist) waitCleaner() {
 	pendingKeys := func() []string {
 		h.absorbDels(nil)
@@ -236,14 +244,27 @@ func (h *hist) waitCleaner() {
 			time.Sleep(5 * time.Millisecond)
 		}
 	}
-	p1 := poll(15 * time.Second)
-	if len(p1) == 0 {
+	resolved := func() {
 		h.c.Obs("cleaner_waits_resolved", 1)
+		if h.taintCtxDead {
+			h.c.Obs("cleaner_waits_resolved_after_ctx_cancel", 1)
+			h.taintCtxDead = false
+		}
+	}
+	// once a missing retry has been reported by this process the run has failed
+	// anyway: the remaining histories do not spend 30 s each on the same defect
+	gap := 15 * time.Second
+	if noRetryReported {
+		gap = 4 * time.Second
+	}
+	p1 := poll(gap)
+	if len(p1) == 0 {
+		resolved()
 		return
 	}
-	p2 := poll(15 * time.Second)
+	p2 := poll(gap)
 	if len(p2) == 0 {
-		h.c.Obs("cleaner_waits_resolved", 1)
+		resolved()
 		return
 	}
 	if healed > 800*time.Millisecond {
@@ -253,7 +274,8 @@ func (h *hist) waitCleaner() {
 		return
 	}
 	post, _ := h.w.scan(h.nodes)
-	h.viol("C06/cleaner/no-retry-observed", fmt.Sprintf("no DEL for %v reached the store although the timing wheel fired a later task and 30 s passed", p2),
+	noRetryReported = true
+	h.viol("C06/cleaner/no-retry-observed", fmt.Sprintf("no DEL for %v reached the store although the timing wheel fired a later task and %v passed", p2, 2*gap),
 		map[string]any{"after_wait": post})
 	for _, k := range p2 {
 		h.ks[k].pending = 0 // cannot be resolved any more; keep checking the rest
